@@ -65,8 +65,9 @@ pub fn total_on(sub: &str, text: &str, docs: &[&str], st: &mut Stats) -> CaseRes
 }
 
 fn strings(src: &mut Src, st: &mut Stats, _env: &Env) -> CaseResult {
-    let kind = src.below(6);
+    let kind = src.below(8);
     let text = match kind {
+        6 | 7 => crate::props::c03::gen_lexical(src),
         0 | 1 => {
             let d = 2 + src.below(5);
             match gen_sentence(src, st, d) {
@@ -308,6 +309,14 @@ fn fixed_cases(_env: &Env, st: &mut Stats) -> Vec<Failure> {
     out
 }
 
+fn fuzz_run(env: &Env, st: &mut Stats) -> Vec<Failure> {
+    crate::fuzzing::campaign("total", env, st, 300)
+}
+
+fn fuzz_replay(case: &Value, env: &Env) -> CaseResult {
+    crate::fuzzing::replay("total", case, env)
+}
+
 fn replay_case(case: &Value, _env: &Env) -> CaseResult {
     let mut st = Stats::new();
     total_on("cases", case["expression"].as_str().unwrap_or(""), &[case["document"].as_str().unwrap_or("null")], &mut st)
@@ -322,12 +331,14 @@ pub fn property() -> Property {
             "in-process inputs stay below 4 KiB and nesting depth ~60; deeper nesting only in child processes".into(),
             "non-termination is only observable as a time-out: a case running longer than 60 s stops the run with exit 2 (inconclusive), it is not reported as a violation".into(),
         ],
+        minimise: None,
         subs: vec![
-            Sub::Bytes(BytesSub { name: "strings", f: strings, max_len: 1500, quick: Budget { threads: 8, cases: 8000 }, thorough: Budget { threads: 16, cases: 400_000 } }),
-            Sub::Bytes(BytesSub { name: "arithmetic", f: arithmetic, max_len: 64, quick: Budget { threads: 8, cases: 20_000 }, thorough: Budget { threads: 16, cases: 1_000_000 } }),
-            Sub::Bytes(BytesSub { name: "builtin-calls", f: builtin_calls, max_len: 32, quick: Budget { threads: 8, cases: 10_000 }, thorough: Budget { threads: 16, cases: 300_000 } }),
+            Sub::Bytes(BytesSub { name: "strings", f: strings, max_len: 1500, quick: Budget { threads: 8, cases: 8000 }, thorough: Budget { threads: 16, cases: 400_000 }, keep_unreproducible: false }),
+            Sub::Bytes(BytesSub { name: "arithmetic", f: arithmetic, max_len: 64, quick: Budget { threads: 8, cases: 20_000 }, thorough: Budget { threads: 16, cases: 1_000_000 }, keep_unreproducible: false }),
+            Sub::Bytes(BytesSub { name: "builtin-calls", f: builtin_calls, max_len: 32, quick: Budget { threads: 8, cases: 10_000 }, thorough: Budget { threads: 16, cases: 300_000 }, keep_unreproducible: false }),
             Sub::Custom(CustomSub { name: "ladder", run: ladder, replay: replay_ladder }),
             Sub::Custom(CustomSub { name: "cases", run: fixed_cases, replay: replay_case }),
+            Sub::Custom(CustomSub { name: "fuzz-total", run: fuzz_run, replay: fuzz_replay }),
         ],
     }
 }
